@@ -51,7 +51,11 @@ pub fn run(args: &Args, rep: &mut Report) {
     std::fs::create_dir_all(&dir).unwrap();
     let nsets = args.get_u64("n", if thorough { 160 } else { 16 });
     let only: Option<u64> = args.case.as_ref().and_then(|c| c.parse().ok());
+    let big_only = args.case.as_deref().map(|c| c.contains("big")).unwrap_or(false);
     for i in 0..nsets {
+        if big_only {
+            break;
+        }
         if !args.mine(i) {
             continue;
         }
@@ -201,5 +205,146 @@ pub fn run(args: &Args, rep: &mut Report) {
             }
         }
     }
+    // inputs larger than ragc's 4 MiB read buffer: a record header that starts exactly at the
+    // 4 MiB mark of the plain file, sequence lines longer than the buffer (unwrapped FASTA)
+    let nbig = args.get_u64("big", if thorough { 3 } else { 1 });
+    for b in 0..nbig {
+        let wanted = match args.case.as_deref() {
+            None => args.mine(nsets + b),
+            Some(c) => c.trim_matches('"') == format!("big{}", b),
+        };
+        if !wanted {
+            continue;
+        }
+        big_case(args, rep, &ragc, &dir, b);
+    }
     let _ = std::fs::remove_dir_all(&dir);
+}
+
+fn big_case(args: &Args, rep: &mut Report, ragc: &str, dir: &str, b: u64) {
+    let mut rng = Rng::derive(args.seed, 0xC19B, b);
+    let mut p = gen::params(&mut rng, true);
+    p.k = *rng.pick(&[15usize, 21, 31]);
+    p.segment_size = *rng.pick(&[5000usize, 20000, 60000]);
+    p.fallback = 0.0;
+    p.capacity = 1 << 30;
+    p.single_file = false;
+    p.pack = 50;
+    p.threads = 8;
+    // first record: ">c0\n" (4 bytes) + L bases in lines of 60 => the second header starts at
+    // 4 + L + ceil(L/60); choose L so that this is exactly 4 MiB (b = 0), 4 MiB + 1 or 4 MiB - 1
+    let target = match b % 3 {
+        0 => 4usize << 20,
+        1 => (4usize << 20) + 1,
+        _ => (4usize << 20) - 1,
+    };
+    let mut l0 = (target - 4) * 60 / 61;
+    while 4 + l0 + (l0 + 59) / 60 < target {
+        l0 += 1;
+    }
+    let aligned = 4 + l0 + (l0 + 59) / 60 == target;
+    let lens = [l0, 2_300_000 + rng.usize(0, 1000), 150_000];
+    let base: Vec<Vec<u8>> = lens.iter().map(|&l| gen::random_bases(&mut rng, l)).collect();
+    let mut samples = Vec::new();
+    for (si, name) in ["big9", "big10"].iter().enumerate() {
+        let contigs: Vec<(String, Vec<u8>)> = base
+            .iter()
+            .enumerate()
+            .map(|(ci, c)| {
+                let mut d = c.clone();
+                if si > 0 {
+                    // sparse SNPs and one N run
+                    for _ in 0..d.len() / 500 {
+                        let at = rng.usize(0, d.len() - 1);
+                        d[at] = rng.below(4) as u8;
+                    }
+                    let at = rng.usize(0, d.len() - 40);
+                    for x in d[at..at + 30].iter_mut() {
+                        *x = 4;
+                    }
+                }
+                (format!("c{}", ci), d)
+            })
+            .collect();
+        samples.push(gen::Sample { name: name.to_string(), contigs });
+    }
+    let set = gen::SampleSet { samples, pansn: false };
+    let mut pres: Vec<Presentation> = vec![Presentation::plain()];
+    let mut q = Presentation::plain();
+    q.width = 50_000_000; // unwrapped: every sequence on one line, longer than the read buffer
+    pres.push(q.clone());
+    q.gz = 2;
+    q.crlf = true;
+    q.width = 80;
+    pres.push(q.clone());
+    let mut q = Presentation::plain();
+    q.gz = 1;
+    q.width = 4 << 20; // lines of exactly the buffer size
+    q.case = 1;
+    pres.push(q);
+    let mut base_out: Option<Outcome> = None;
+    let mut bad: Option<String> = None;
+    for (vi, q) in pres.iter().enumerate() {
+        let idir = format!("{}/big{}v{}", dir, b, vi);
+        std::fs::create_dir_all(&idir).unwrap();
+        let (inputs, _) = cli::write_inputs(&idir, &set, q, &mut rng, "");
+        let r = build(ragc, &idir, &inputs, &p, "a");
+        let _ = std::fs::remove_dir_all(&idir);
+        rep.evaluations += 1;
+        rep.count("presentations_of_inputs_beyond_the_4MiB_read_buffer", 1);
+        let out = match r {
+            Ok(o) => o,
+            Err(e) => {
+                if vi == 0 || e == "watchdog" {
+                    rep.inconclusive(format!("big set {}: presentation [{}] failed: {}", b, q.describe(), e));
+                } else {
+                    bad = Some(format!("rejected: presentation [{}] fails although the plain presentation of the same sequences succeeds: {}", q.describe(), e));
+                }
+                break;
+            }
+        };
+        if vi == 0 {
+            // the baseline itself is compared with the input (C01's oracle), so that a fault that
+            // hits only the aligned plain file is seen
+            for (si, s) in set.samples.iter().enumerate() {
+                let got = cli::parse_fasta(out.extraction.get(si).map(|v| &v[..]).unwrap_or(&[]));
+                let want: Vec<(String, Vec<u8>)> = s.contigs.iter().map(|(n, c)| (n.clone(), cli::codes_to_ascii(c))).collect();
+                if got != want {
+                    bad = Some(format!("extraction: sample {:?} of the plain presentation (second header at byte {}) does not equal the input", s.name, target));
+                }
+            }
+            if aligned {
+                rep.count("plain_inputs_with_a_header_at_the_4MiB_mark", 1);
+            }
+            base_out = Some(out);
+            if bad.is_some() {
+                break;
+            }
+            continue;
+        }
+        let bo = base_out.as_ref().unwrap();
+        if out.listing != bo.listing {
+            bad = Some(format!("listing: sample list differs for presentation [{}]", q.describe()));
+        } else if out.extraction != bo.extraction {
+            bad = Some(format!("extraction: extracted contigs differ for presentation [{}] of a {}-MB input", q.describe(), set.total_bases() >> 20));
+        } else if out.sha != bo.sha {
+            bad = Some(format!("bytes: archive differs from the plain presentation although only compression/wrapping/line ends/case changed [{}]", q.describe()));
+        } else {
+            rep.count("byte_identity_checks", 1);
+        }
+        if bad.is_some() {
+            break;
+        }
+    }
+    match bad {
+        Some(w) => rep.violation(
+            &format!("C19:{}", w.split(':').next().unwrap_or("")),
+            jobj(&[("what", jstr(&vcommon::clip(&w, 900))), ("workload", jstr("vh c19")), ("seed", args.seed.to_string()), ("case", jstr(&format!("big{}", b))), ("params", p.json())]),
+        ),
+        None => {
+            if base_out.is_some() {
+                rep.nontrivial(set.digest() ^ fnv(p.describe().as_bytes()));
+            }
+        }
+    }
 }
